@@ -12,6 +12,7 @@ import (
 	"runtime"
 	"sync"
 	"testing"
+	"time"
 
 	"pgregory.net/rapid"
 	"verif/lib"
@@ -188,7 +189,11 @@ func c09Check(ci interface{}) lib.Outcome {
 			}(g)
 		}
 		close(start)
-		wg.Wait()
+		if verdict, report := lib.WaitBatch(&wg, "c09Check.func", 60*time.Second, 20*time.Minute); verdict == "deadlock" {
+			return lib.Outcome{Violation: "deadlock: the concurrent batch never finishes: " + report}
+		} else if verdict == "slow" {
+			return lib.Outcome{Skip: "batch-unfinished-after-20-minutes-but-not-provably-deadlocked"}
+		}
 	}
 	if first != nil {
 		return lib.Outcome{Violation: fmt.Sprintf("goroutine %d, call %d: concurrent Match(%s) returned\n%s\nbut the same call run alone returns\n%s", first.g, first.step, c.Pool[first.input].describe(), first.got, ref[first.input])}
